@@ -360,7 +360,7 @@ func C13() *engine.Check {
 	return &engine.Check{
 		Property: "C13",
 		Level:    "model_checking",
-		Subs:     []*engine.Sub{main, c13BytesSub(), long, many, nonString, c13AdjSub(), c13MutSub(), selCollideSub("C13"), c13ConcSub(), concRaceSub("C13")},
+		Subs:     []*engine.Sub{main, c13BytesSub(), long, many, nonString, c13AdjSub(), c13MutSub(), c13HashSub(), selCollideSub("C13"), c13ConcSub(), concRaceSub("C13")},
 		Assumptions: []string{
 			`alphabet {a,b,*,\}: two ordinary characters plus the two special ones; bytes outside ASCII are not special to the matcher (sub-check like-on-bytes-outside-ascii runs a second alphabet of such bytes)`,
 			"reference: dynamic programming over the tokenized pattern (refmodel.GlobMatch), independent of the backtracking matcher",
